@@ -17,6 +17,7 @@ import (
 
 	"github.com/aws/aws-sdk-go-v2/aws"
 	"github.com/aws/aws-sdk-go-v2/service/s3"
+	"github.com/aws/smithy-go"
 
 	"verif/sim/sims3"
 	"verif/sim/simrt"
@@ -48,7 +49,7 @@ type w5apiErr struct{ code, msg string }
 func (e *w5apiErr) Error() string       { return e.code + ": " + e.msg }
 func (e *w5apiErr) ErrorCode() string   { return e.code }
 func (e *w5apiErr) ErrorMessage() string { return e.msg }
-func (e *w5apiErr) ErrorFault() int     { return 0 }
+func (e *w5apiErr) ErrorFault() smithy.ErrorFault { return smithy.FaultUnknown } // (a real smithy.APIError, as the SDK's errors are)
 
 // op runs a non-object S3 call as one simulated IO; apply runs iff the call took effect.
 func (a *w5s3) op(ctx context.Context, op, key string, apply func()) error {
